@@ -705,6 +705,11 @@ impl<T: Elem + SatisfyTraits<Tr>, M: MX, Tr: TrX + ?Sized> Runner for Cfg<T, M, 
         let s = snap::<T, Tr, M>(&w.a);
         let intact = snap_matches::<T>(&s, &w.ma);
         let cap_after = w.a.capacity();
+        // keep using the vector after the (possibly rejected) request: two more pushes must stay inside the storage (C05)
+        if T::SIZE != 0 {
+            let a = &mut w.a;
+            let _ = guarded(|| { let mut t = a.downcast_mut::<T>().unwrap(); t.push(T::fresh()); t.push(T::fresh()); });
+        }
         // the vector must still be droppable and the allocator must see consistent layouts (C18)
         let dropped = guarded(move || drop(w)).is_ok();
         galloc::flush();
@@ -769,6 +774,9 @@ impl<T: Elem + SatisfyTraits<Tr>, M: MX, Tr: TrX + ?Sized> Runner for Cfg<T, M, 
             Edge::CloneVec { then } => w.do_clone(then, &mut out),
             Edge::CloneEmpty { then } => w.do_clone_empty(then, &mut out),
             Edge::CloneEmptyIn { target, then } => w.do_clone_empty_in(target, then, &mut out),
+            Edge::DrainAdapt { api, a, b, op } => w.do_range_adapt(api, ix(a), ix(b), op, None, &mut out),
+            Edge::SpliceAdapt { api, a, b, op, rn } => w.do_range_adapt(api, ix(a), ix(b), op, Some(rn as usize), &mut out),
+            Edge::IterAdapt { api, kind, op } => w.do_iter_adapt(api, kind, op, &mut out),
             Edge::IterProto { api, kind, pat, clone_at } => w.do_iter_proto(api, kind, pat, clone_at, &mut out),
             _ => { out.fail(Class::Machinery, "unimplemented-edge", format!("{e:?}")); }
         }
